@@ -94,6 +94,12 @@ def context_cases(rnd):
         for mode, t in spellings_js(v).items():
             cases.append(("string-literal", cname, "js-" + mode, "{{ '%s' }}" % t, v, None))
             cases.append(("attr-value", cname, "js-" + mode, "<v a=\"{{ '%s' }}\"/>" % t.replace('"', "\\x22"), v, None))
+            # the literal as an operand, a branch, an item, a member value: not the whole binding
+            tq = t.replace('"', "\\x22")
+            cases.append(("attr-value", cname, "js-concat-" + mode, "<v a=\"{{ k + '%s' }}\"/>" % tq, "K" + v, {"k": "K"}))
+            cases.append(("string-literal", cname, "js-branch-" + mode, "{{ c ? '%s' : 'n' }}" % t, v, {"c": True}))
+            cases.append(("attr-value", cname, "js-item-" + mode, "<v a=\"{{ ['%s', k][0] }}\"/>" % tq, v, {"k": "K"}))
+            cases.append(("attr-value", cname, "js-member-" + mode, "<v a=\"{{ {p: '%s'}.p }}\"/>" % tq, v, None))
     # names: identifier-like strings (the parser's own grammar for names)
     for n in ("ab", "a-b", "a.b", "a_b", "A9", "a--b", "a.b-c"):
         cases.append(("tag-name", "NAME", n, "<%s/>" % n, n if not any(c.isupper() for c in n) else n, None))
